@@ -13,7 +13,8 @@
        call_out    = [[attempt_out ...] ok ts off err prev]
        attempt_out = [lvm org.s org.f rx.s rx.f tx.s tx.f result]   (the request as seen on the wire)
        result      = [0 errclass] | [1 inter t0 t1 t2 t3 off rtd at prev]
-       prev        = [ref inter ctx.s ctx.f crx.s crx.f srx.s srx.f] *)
+       prev        = [ref inter ctx.s ctx.f crx.s crx.f srx.s srx.f]
+   case "c03.kstamps": args = attempts fallback_tx fallback_rx (per worker process) *)
 From Coq Require Import ZArith List String Bool.
 From ST Require Import Base.Ints Base.Value Model.NtpTime Model.Exchange Model.ExchangeOracle Extract.GlueBase.
 Import ListNotations.
@@ -143,6 +144,14 @@ Definition glue_C03 (k : string) (a o : list value) : option verdict :=
                     (if oracle_on =? 0 then true else forallb (obs_call_ok xs) o))
         | _, _ => None
         end
+    | _ => None
+    end
+  else if is k "c03.kstamps" then
+    (* the client combines kernel timestamps; the fallback to a clock reading
+       (taken after the send / after the read) is the exception: at most 5 % of
+       the attempts of a worker *)
+    match a with
+    | [VZ n; VZ fbtx; VZ fbrx] => Some (relational ((fbtx * 20 <=? n) && (fbrx * 20 <=? n)) true)
     | _ => None
     end
   else None.
